@@ -35,6 +35,7 @@ pub fn generate(prop: &str, tier: &str, seed: u64) -> Vec<Episode> {
         "C14" => two::gen_c14(thorough, seed),
         "C15" => two::gen_c15(thorough, seed),
         "C16" => two::gen_c16(thorough, seed),
+        "C18" => two::gen_c18(thorough, seed),
         _ => panic!("HARNESS: no generator for {}", prop),
     }
 }
